@@ -445,12 +445,15 @@ package collection
 //@ func (*stack_).AddValue
 //@   props C13
 //@   implements StackLike.AddValue
+//@   modifies view(this.values_)
 //@ func (*stack_).RemoveTop
 //@   props C13
 //@   implements StackLike.RemoveTop
+//@   modifies view(this.values_)
 //@ func (*stack_).RemoveAll
 //@   props C13
 //@   implements StackLike.RemoveAll
+//@   modifies view(this.values_)
 //@ func (*stack_).IsEmpty
 //@   props C13
 //@   implements Sequential.IsEmpty
@@ -545,15 +548,18 @@ package collection
 //@   props C02 C15
 //@   implements SetLike.AddValue
 //@   uses smem_insert
+//@   modifies view(this.values_)
 //@   ensures this.values_ == old(this.values_)
 //@ func (*set_).RemoveValue
 //@   props C02 C15
 //@   implements SetLike.RemoveValue
 //@   uses smem_remove
+//@   modifies view(this.values_)
 //@   ensures this.values_ == old(this.values_)
 //@ func (*set_).RemoveAll
 //@   props C02
 //@   implements SetLike.RemoveAll
+//@   modifies view(this.values_)
 //@ func (*set_).ContainsValue
 //@   props C02 C15
 //@   implements SetLike.ContainsValue
@@ -607,6 +613,7 @@ package collection
 //@   props C02 C15 C18
 //@   implements SetLike.AddValues
 //@   uses smem_snoc, smem_take_all, smem_take_none
+//@   modifies view(this.values_)
 //@   let c := this.collator_
 //@   loop 1:
 //@     invariant snap(iterator) == old(view(values)) && 0 <= pos(iterator) && pos(iterator) <= len(snap(iterator)) && this.collator_ == c
@@ -619,6 +626,7 @@ package collection
 //@   props C02 C15 C18
 //@   implements SetLike.RemoveValues
 //@   uses smem_snoc, smem_take_all, smem_take_none
+//@   modifies view(this.values_)
 //@   let c := this.collator_
 //@   loop 1:
 //@     invariant snap(iterator) == old(view(values)) && 0 <= pos(iterator) && pos(iterator) <= len(snap(iterator)) && this.collator_ == c
@@ -1011,6 +1019,7 @@ package collection
 //@   ensures[C03] kmem(s, key) ==> result == aval(s[kwit(s, key)]) && view(this) == remove(s, kwit(s, key))
 //@   ensures[C03] !kmem(s, key) ==> result == zero(V) && view(this) == s
 //@   ensures[C03] wellkeyed(s) ==> wellkeyed(view(this))
+//@   ensures[C03] wellkeyed(s) ==> (forall k U :: kmem(view(this), k) <==> kmem(s, k) && k != key)
 //@ iface CatalogLike.RemoveAll
 //@   nopanic
 //@   modifies view(this)
@@ -1035,10 +1044,12 @@ package collection
 //@   props C03 C16
 //@   implements CatalogLike.SetValue
 //@   uses kmem_append, kwit_unique, kwit_append_old, kwit_append_new
+//@   modifies view(this.associations_), mapof(this.keys_), aval(get(this.keys_, key))
 //@ func (*catalog_).RemoveValue
 //@   props C03
 //@   implements CatalogLike.RemoveValue
 //@   uses kmem_remove, kwit_unique
+//@   modifies view(this.associations_), mapof(this.keys_)
 //@   let s := view(this)
 //@   loop 1:
 //@     invariant snap(iterator) == s && 0 <= pos(iterator) && pos(iterator) <= len(s) && index == pos(iterator) && view(this) == s && kmem(s, key) && this.keys_ == old(this.keys_) && this.associations_ == old(this.associations_)
@@ -1048,6 +1059,7 @@ package collection
 //@ func (*catalog_).RemoveAll
 //@   props C03
 //@   implements CatalogLike.RemoveAll
+//@   modifies view(this.associations_), this.keys_
 //@ func (*catalog_).GetKeys
 //@   props C03 C18
 //@   implements CatalogLike.GetKeys
@@ -1250,18 +1262,21 @@ package collection
 //@ func (*catalog_).SortValues
 //@   props C03 C09
 //@   implements Sortable.SortValues
+//@   modifies view(this.associations_)
 //@   uses kmem_perm, ukeys_perm, kobj_perm, nonnil_perm
 //@   hint call1: permof(view(this), old(view(this)))
 //@   ensures[C03] permof(view(this), old(view(this))) && samemapping(view(this), old(view(this))) && unchanged(aval)
 //@ func (*catalog_).SortValuesWithRanker
 //@   props C03 C09
 //@   implements Sortable.SortValuesWithRanker
+//@   modifies view(this.associations_)
 //@   uses kmem_perm, ukeys_perm, kobj_perm, nonnil_perm
 //@   hint call1: permof(view(this), old(view(this)))
 //@   ensures[C03] permof(view(this), old(view(this))) && samemapping(view(this), old(view(this))) && unchanged(aval)
 //@ func (*catalog_).ShuffleValues
 //@   props C03 C09
 //@   implements Sortable.ShuffleValues
+//@   modifies view(this.associations_)
 //@   uses kmem_perm, ukeys_perm, kobj_perm, nonnil_perm
 //@   hint call1: permof(view(this), old(view(this)))
 //@   ensures[C03] permof(view(this), old(view(this))) && samemapping(view(this), old(view(this))) && unchanged(aval)
@@ -1269,6 +1284,59 @@ package collection
 //@ func (*catalog_).ReverseValues
 //@   props C03 C09
 //@   implements Sortable.ReverseValues
+//@   modifies view(this.associations_)
 //@   uses kmem_perm, ukeys_perm, kobj_perm, nonnil_perm, rev_sameelems
 //@   ensures[C03] permof(view(this), old(view(this))) && samemapping(view(this), old(view(this))) && unchanged(aval)
 //@   hint call1: permof(view(this), old(view(this)))
+
+// ---------------------------------------------------------------- remaining Associative bulk operations (C03, C14, C18)
+
+//@ iface CatalogClassLike.MakeFromMap
+//@   nopanic
+//@   ensures[C03,C18] fresh(result) && result != nil && wellkeyed(view(result)) && allfresh(view(result)) && unchanged(aval) && unchanged(view)
+//@   ensures[C03] forall k U :: kmem(view(result), k) <==> dom(associations, k)
+//@   ensures[C03] forall k U :: dom(associations, k) ==> valof(view(result), k) == get(associations, k)
+//@ func (*catalogClass_).MakeFromMap
+//@   props C03 C18
+//@   implements CatalogClassLike.MakeFromMap
+//@   loop 1:
+//@     invariant 0 <= $rpos && $rpos <= len($enum) && catalog != nil && fresh(catalog)
+//@     invariant wellkeyed(view(catalog)) && allfresh(view(catalog)) && unchanged(aval) && unchanged(view)
+//@     invariant forall k U :: kmem(view(catalog), k) <==> (exists i :: 0 <= i && i < $rpos && $enum[i] == k)
+//@     invariant forall k U :: kmem(view(catalog), k) ==> valof(view(catalog), k) == get(associations, k)
+//@     decreases len($enum) - $rpos
+
+//@ iface CatalogLike.RemoveValues
+//@   nopanic
+//@   modifies view(this)
+//@   ensures[C03,C18] fresh(result) && result != nil && len(view(result)) == len(old(view(keys)))
+//@   ensures[C03] wellkeyed(old(view(this))) ==> wellkeyed(view(this))
+//@   ensures[C03] forall k U :: kmem(view(this), k) <==> kmem(old(view(this)), k) && !kin(old(view(keys)), k)
+//@ func (*catalog_).RemoveValues
+//@   props C03 C18
+//@   implements CatalogLike.RemoveValues
+//@   uses kin_snoc, kin_take_none, kin_take_all
+//@   modifies view(this.associations_), mapof(this.keys_)
+//@   let ks := view(keys)
+//@   let s := view(this)
+//@   loop 1:
+//@     invariant snap(iterator) == ks && 0 <= pos(iterator) && pos(iterator) <= len(ks) && values != nil && fresh(values) && len(view(values)) == pos(iterator)
+//@     invariant inv(catalog_, this) && this.associations_ == old(this.associations_)
+//@     invariant forall k U :: kmem(view(this), k) <==> kmem(s, k) && !kin(ks[0:pos(iterator)], k)
+//@     invariant unchanged(view, old(this.associations_))
+//@     decreases len(ks) - pos(iterator)
+
+//@ iface MapLike.RemoveValues
+//@   nopanic
+//@   modifies mapof(this)
+//@   ensures[C14,C18] fresh(result) && result != nil && len(view(result)) == len(view(keys))
+//@   ensures[C14] forall k U :: (dom(this, k) <==> old(dom(this, k)) && !kin(old(view(keys)), k)) && (dom(this, k) ==> get(this, k) == old(get(this, k)))
+//@ func (map_).RemoveValues
+//@   props C14 C18
+//@   implements MapLike.RemoveValues
+//@   uses kin_snoc, kin_take_none, kin_take_all
+//@   let ks := view(keys)
+//@   loop 1:
+//@     invariant index == pos(iterator) + 1 && snap(iterator) == ks && 0 <= pos(iterator) && pos(iterator) <= size && len(ks) == size && len(view(values)) == size && fresh(values) && this != nil
+//@     invariant forall k U :: (dom(this, k) <==> old(dom(this, k)) && !kin(ks[0:pos(iterator)], k)) && (dom(this, k) ==> get(this, k) == old(get(this, k)))
+//@     decreases size - pos(iterator)
